@@ -1,18 +1,27 @@
-(* C16 -- BGZF framing of the async reader versus the sync reader.
+(* C16 -- BGZF framing of the async reader versus the sync reader (repaired async side).
 
    Async side (noodles-bgzf/src/async/block_codec.rs, driven by tokio_util::codec::FramedRead in
    async/io/reader/inflater.rs): the source delivers the file in arbitrary chunks (one chunk per
    Ready poll; Pending polls deliver nothing and do not change the state, so a poll script is
    exactly a partition of the file into chunks).  FramedRead appends each chunk to its buffer and
-   calls [BlockCodec::decode] until it answers None; when the source reports end of input it
-   calls [decode_eof] until that answers None.
+   calls [BlockCodec::decode] until it answers None or fails; when the source reports end of input
+   it calls [decode_eof].
 
-     decode buf:      fewer than 18 bytes            -> None
-                      block_size = le16(buf[16..18]) + 1        (no minimum-size check)
-                      fewer than block_size bytes    -> None
+     decode buf:      fewer than 18 bytes            -> None (need more)
+                      block_size = le16(buf[16..18]) + 1
+                      block_size < 26 (MIN_FRAME_SIZE) -> Err InvalidData
+                      fewer than block_size bytes    -> None (need more)
                       otherwise split block_size bytes off the front
-     decode_eof buf:  decode buf, and when that is None and buf is not empty: ALL remaining bytes
-                      are handed on as one last frame.
+     decode_eof buf:  decode buf; when that is None: fewer than 18 bytes left (a partial header)
+                      -> clean end of input, otherwise Err UnexpectedEof.
+
+   A codec error ends the frame stream; the async reader queues it behind the blocks that precede
+   it (Inflater::poll_next turns it into a failed inflate task), so it is observed after their
+   data, like an inflate error.
+
+   (Before the repair [decode] had no minimum-size check and [decode_eof] forwarded the remaining
+   bytes as a last frame; that model and its three refutation witnesses are in the history of this
+   file -- candidate finding F16.)
 
    Sync side (noodles-bgzf/src/io/reader/frame.rs read_frame_into):
      read_exact 18 header bytes; UnexpectedEof here (0..17 bytes left)  -> clean end of input
@@ -42,41 +51,53 @@ Definition block_size (buf : list N) : nat :=
 (* ---------------------------------------------------------------------------------------- *)
 (* async: BlockCodec::decode / FramedRead                                                    *)
 
-Definition decode (buf : list N) : option (list N * list N) :=
-  if length buf <? HDR then None
+Inductive dec := More | Bad | Frame (fr rest : list N).
+
+Definition decode (buf : list N) : dec :=
+  if length buf <? HDR then More
   else
     let n := block_size buf in
-    if length buf <? n then None else Some (firstn n buf, skipn n buf).
+    if n <? MIN_FRAME then Bad
+    else if length buf <? n then More else Frame (firstn n buf) (skipn n buf).
 
-(* FramedRead calls decode until None; every frame has at least one byte, so [length buf]
-   iterations suffice (DrainProofs.drain_fuel: the result does not depend on the fuel). *)
-Fixpoint drain (fuel : nat) (buf : list N) : list (list N) * list N :=
+(* how a run of decode calls on one buffer ends: more input is needed, or the codec failed *)
+Inductive dstate := Stuck | Failed.
+
+(* FramedRead calls decode until None / Err; every frame has at least one byte, so [length buf]
+   iterations suffice (FramingProofs.drain_fuel: the result does not depend on the fuel). *)
+Fixpoint drain (fuel : nat) (buf : list N) : list (list N) * dstate * list N :=
   match fuel with
-  | O => ([], buf)
+  | O => ([], Stuck, buf)
   | S f =>
       match decode buf with
-      | None => ([], buf)
-      | Some (fr, rest) => let '(fs, r) := drain f rest in (fr :: fs, r)
+      | More => ([], Stuck, buf)
+      | Bad => ([], Failed, buf)
+      | Frame fr rest => let '(fs, st, r) := drain f rest in (fr :: fs, st, r)
       end
   end.
 
-Definition drain_all (buf : list N) : list (list N) * list N := drain (length buf) buf.
+Definition drain_all (buf : list N) : list (list N) * dstate * list N := drain (length buf) buf.
 
-(* decode_eof until None: the complete frames, then the non-empty remainder as a last frame *)
-Definition eof_tail (r : list N) : list (list N) :=
-  match r with [] => [] | _ :: _ => [r] end.
+(* decode_eof on the bytes left when the source is at its end *)
+Definition eof_ending (r : list N) : ending :=
+  if length r <? HDR then Eof else Err UnexpectedEof.
 
-Definition flat_frames (buf : list N) : list (list N) :=
-  let '(fs, r) := drain_all buf in fs ++ eof_tail r.
-
-(* state = buffer; one chunk per Ready poll; the empty chunk list = the source is at its end *)
-Fixpoint feed (buf : list N) (chunks : list (list N)) : list (list N) :=
+(* state = buffer; one chunk per Ready poll; the empty chunk list = the source is at its end.
+   Result: the frames yielded, in order, and how the frame stream ended. *)
+Fixpoint feed (buf : list N) (chunks : list (list N)) : list (list N) * ending :=
   match chunks with
-  | [] => flat_frames buf
-  | c :: cs => let '(fs, r) := drain_all (buf ++ c) in fs ++ feed r cs
+  | [] =>
+      let '(fs, st, r) := drain_all buf in
+      (fs, match st with Failed => Err InvalidData | Stuck => eof_ending r end)
+  | c :: cs =>
+      let '(fs, st, r) := drain_all (buf ++ c) in
+      match st with
+      | Failed => (fs, Err InvalidData)
+      | Stuck => let '(fs', e) := feed r cs in (fs ++ fs', e)
+      end
   end.
 
-Definition async_frames (chunks : list (list N)) : list (list N) := feed [] chunks.
+Definition async_frames (chunks : list (list N)) : list (list N) * ending := feed [] chunks.
 
 (* ---------------------------------------------------------------------------------------- *)
 (* sync: read_frame_into in a loop                                                           *)
@@ -137,7 +158,7 @@ Section Transcript.
     end.
 
   Definition async_obs (chunks : list (list N)) : list (N * N) * N * ending :=
-    deliver 0 0%N (async_frames chunks) Eof.
+    let '(fs, e) := async_frames chunks in deliver 0 0%N fs e.
 
   Definition sync_obs (file : list N) : list (N * N) * N * ending :=
     let '(fs, e) := sync_all file in deliver 0 0%N fs e.
